@@ -45,7 +45,7 @@ class Annulus(Sketch):
         self.core: List[Face] = []
         self.shell = [face.copy().rotate(i * segment_angle, normal, center_point) for i in range(n_segments)]
 
-        if self.inner_radius > self.outer_radius:
+        if self.inner_radius >= self.outer_radius:
             raise AnnulusCreationError(
                 "Outer ring radius must be larger than inner!",
                 f"Inner radius: {self.inner_radius}, Outer radius: {self.outer_radius}",
